@@ -76,10 +76,10 @@ pub fn json_f64() {
         None => { oblige!(!f.is_finite(), "C13:numbers_classified_as_serde_json_holds_them"); }
     }
     let back = JValue::from(Value::<JValue>::Float(f));
-    oblige!(if f.is_finite() { back.as_f64().map(|x| x.to_bits()) == Some(f.to_bits()) } else { back.is_null() }, "C13:from_value_gives_back_the_same_document");
+    oblige!(if f.is_finite() { back.is_f64() && back.as_f64().map(|x| x.to_bits()) == Some(f.to_bits()) } else { back.is_null() }, "C13:from_value_gives_back_the_same_document");   // held as a float: a whole-valued float is not turned into an integer
     std::mem::forget(back);
     match <JValue as Deserr<Rec>>::deserialize_from_value::<JValue>(Value::Float(f), l) {
-        Ok(j) => { oblige!(f.is_finite() && j.as_f64().map(|x| x.to_bits()) == Some(f.to_bits()) && rec::calls() == 0, "C13:deserr_impl_gives_back_the_same_document"); std::mem::forget(j); }
+        Ok(j) => { oblige!(f.is_finite() && j.is_f64() && j.as_f64().map(|x| x.to_bits()) == Some(f.to_bits()) && rec::calls() == 0, "C13:deserr_impl_gives_back_the_same_document"); std::mem::forget(j); }
         Err(e) => {
             oblige!(!f.is_finite(), "C13:deserr_impl_never_fails_on_a_document_serde_json_can_hold");
             oblige!(e.n == 1 && rec::calls() == 1 && e.ev[0].kind() == K_UNEXPECTED && e.ev[0].path() == Path::ROOT.idx(2), "C01,C04:exactly_one_report_at_the_given_location");
